@@ -786,40 +786,6 @@ type tokenLit struct {
 	pos     token.Pos
 }
 
-// tokenLits enumerates composite literals of type token in jen.
-func (c *Ctx) tokenLits() []tokenLit {
-	tt := c.Jen.Pkg.Scope().Lookup("token")
-	if tt == nil {
-		broken("anchor lost: type jen.token")
-	}
-	var out []tokenLit
-	for _, f := range c.allFuncs(c.Jen) {
-		for _, b := range f.Blocks {
-			for _, in := range b.Instrs {
-				al, ok := in.(*ssa.Alloc)
-				if !ok {
-					continue
-				}
-				if !types.Identical(al.Type().Underlying().(*types.Pointer).Elem(), tt.Type()) {
-					continue
-				}
-				fs, ok := allocFields(al)
-				if !ok || len(fs) == 0 {
-					// spilled copies (e.g. `pt` in renderItems) have whole-value stores, not field stores
-					continue
-				}
-				tl := tokenLit{fn: f, alloc: al, pos: al.Pos()}
-				if v, ok := fs["typ"]; ok {
-					tl.typ, tl.typOK = constString(v)
-				}
-				tl.content = fs["content"]
-				out = append(out, tl)
-			}
-		}
-	}
-	return out
-}
-
 func ruleKeywords(c *Ctx) []Obligation {
 	o := c.newObs("T-KEYWORDS")
 	universe := map[string]bool{"err": true}
@@ -924,237 +890,7 @@ func ruleTokContent(c *Ctx) []Obligation {
 	return o.list
 }
 
-// edgeTypes: token types asserted by the edges entering block b (multi-value case clauses).
-func (c *Ctx) edgeTypes(a *FnA, b *ssa.BasicBlock) []string {
-	set := map[string]bool{}
-	var walk func(x *ssa.BasicBlock, depth int)
-	walk = func(x *ssa.BasicBlock, depth int) {
-		if depth > 3 {
-			return
-		}
-		for _, p := range x.Preds {
-			for i, s := range p.Succs {
-				if s != x {
-					continue
-				}
-				found := false
-				for _, l := range a.edgeLits(p, i) {
-					if l.Pol && strings.HasPrefix(l.Atom, "eq(\"") && strings.HasSuffix(l.Atom, ",recv.typ)") {
-						set[l.Atom[4:strings.Index(l.Atom, "\",recv.typ)")]] = true
-						found = true
-					}
-				}
-				if !found && len(x.Preds) == 1 {
-					walk(p, depth+1)
-				}
-			}
-		}
-	}
-	walk(b, 0)
-	var out []string
-	for s := range set {
-		out = append(out, s)
-	}
-	sort.Strings(out)
-	return out
-}
-
 // ---------------------------------------------------------------------------------------------
-
-func ruleRegex(c *Ctx) []Obligation {
-	o := c.newObs("T-REGEX")
-	fn := c.role("guessAlias")
-	if fn == nil {
-		// by role: the string->string function called by the registration function and NewFilePath
-		o.undecided("jen.guessAlias", "anchor", token.NoPos, "anchor lost: alias guesser not found")
-		return o.list
-	}
-	a := c.FA(fn)
-	nre := 0
-	checkPattern := func(pat string, pos token.Pos) {
-		re, err := syntax.Parse(pat, syntax.Perl)
-		if err != nil {
-			o.add(Violated, fname(fn), "sanitising regexp", pos, true, "pattern %q does not parse: %v", pat, err)
-			return
-		}
-		re = re.Simplify()
-		kept, ok := keptRunes(re)
-		if !ok {
-			o.undecided(fname(fn), "sanitising regexp", pos, "pattern %q is not a single character class", pat)
-			return
-		}
-		bad := ""
-		for _, r := range kept {
-			for x := r[0]; x <= r[1] && bad == ""; x++ {
-				if !(x < 128 && (unicode.IsLetter(x) || unicode.IsDigit(x))) { // '_' alone would be the blank identifier
-					bad = fmt.Sprintf("%q", x)
-				}
-				if x-r[0] > 300 {
-					bad = fmt.Sprintf("range %q-%q", r[0], r[1])
-				}
-			}
-		}
-		o.req(bad == "", fname(fn), "sanitising regexp removes everything but ASCII letters and digits", pos, "pattern %q keeps %s, which is not legal in a Go identifier", pat, bad)
-	}
-	for _, ci := range a.calls() {
-		sc := ci.Common().StaticCallee()
-		if sc == nil {
-			continue
-		}
-		switch sc.String() {
-		case "regexp.MustCompile", "regexp.Compile":
-			pat, ok := constString(ci.Common().Args[0])
-			if !ok {
-				o.undecided(fname(fn), "sanitising regexp", ci.Pos(), "pattern is not a constant")
-				continue
-			}
-			nre++
-			checkPattern(pat, ci.Pos())
-		case "(*regexp.Regexp).ReplaceAllString", "(*regexp.Regexp).ReplaceAllLiteralString":
-			rep, ok := constString(ci.Common().Args[2])
-			o.req(ok && rep == "", fname(fn), "sanitising replacement is the empty string", ci.Pos(), "replacement %s", a.Desc(ci.Common().Args[2]))
-		}
-	}
-	if nre == 0 {
-		// a regexp hoisted to a package-level variable: follow its initialiser
-		for _, ci := range a.calls() {
-			sc := ci.Common().StaticCallee()
-			if sc == nil || !strings.HasPrefix(sc.String(), "(*regexp.Regexp).ReplaceAll") {
-				continue
-			}
-			ld, ok := ci.Common().Args[0].(*ssa.UnOp)
-			if !ok {
-				continue
-			}
-			gl, ok := ld.X.(*ssa.Global)
-			if !ok {
-				continue
-			}
-			init, _ := varInit(c.JenP, gl.Name())
-			call, ok := init.(*ast.CallExpr)
-			if !ok || len(call.Args) != 1 {
-				continue
-			}
-			pat, ok := constStr(c.JenP.TypesInfo, call.Args[0])
-			if !ok {
-				continue
-			}
-			if se, ok := call.Fun.(*ast.SelectorExpr); !ok || (se.Sel.Name != "MustCompile" && se.Sel.Name != "Compile") {
-				continue
-			}
-			nre++
-			checkPattern(pat, ci.Pos())
-		}
-	}
-	if nre == 0 {
-		o.undecided(fname(fn), "sanitising regexp", fn.Pos(), "anchor lost: no regexp compiled in (or for) the alias guesser")
-	}
-	// returns: non-empty, not starting with a digit
-	for _, r := range a.returns() {
-		v := r.Results[0]
-		facts := a.FactsAt(r.Block())
-		nonEmpty := func(x ssa.Value, pred *ssa.BasicBlock, idx int) bool {
-			if s, ok := constString(x); ok {
-				return s != "" && !unicode.IsDigit(rune(s[0]))
-			}
-			d := a.Desc(x)
-			if facts.Has("empty("+d+")", false) {
-				return true
-			}
-			if pred != nil {
-				for _, l := range a.edgeLits(pred, idx) {
-					if l.Atom == "empty("+d+")" && !l.Pol {
-						return true
-					}
-				}
-				if a.FactsAt(pred).Has("empty("+d+")", false) {
-					return true
-				}
-			}
-			return false
-		}
-		ok := true
-		var srcs []ssa.Value
-		if phi, isPhi := v.(*ssa.Phi); isPhi {
-			for i, e := range phi.Edges {
-				pred := phi.Block().Preds[i]
-				idx := 0
-				for j, s := range pred.Succs {
-					if s == phi.Block() {
-						idx = j
-					}
-				}
-				if !nonEmpty(e, pred, idx) {
-					ok = false
-				}
-				srcs = append(srcs, e)
-			}
-		} else {
-			ok = nonEmpty(v, nil, 0)
-			srcs = append(srcs, v)
-		}
-		o.req(ok, fname(fn), "returned name is never empty", r.Pos(), "returns %s under %s", a.Desc(v), facts)
-		// leading digit: on the path to the return, IsDigit(first rune of the candidate) is known false
-		digitOK := false
-		for d := r.Block(); d != nil; d = d.Idom() {
-			if len(d.Succs) != 2 {
-				continue
-			}
-			iff, isIf := d.Instrs[len(d.Instrs)-1].(*ssa.If)
-			if !isIf {
-				continue
-			}
-			call, isCall := iff.Cond.(*ssa.Call)
-			if !isCall || call.Call.StaticCallee() == nil || call.Call.StaticCallee().String() != "unicode.IsDigit" {
-				continue
-			}
-			if !edgeHolds(d, 1, r.Block()) {
-				continue
-			}
-			for _, s := range srcs {
-				if _, isC := s.(*ssa.Const); isC {
-					continue
-				}
-				if firstRuneOf(call.Call.Args[0], s) {
-					digitOK = true
-				}
-			}
-		}
-		o.req(digitOK, fname(fn), "returned name does not start with a digit", r.Pos(), "needs fact ¬unicode.IsDigit(first rune of the returned candidate); facts %s", facts)
-	}
-	return o.list
-}
-
-// firstRuneOf: is r the first rune (utf8.DecodeRuneInString(...)#0) of string value str? Phis in the
-// same block are related edge by edge.
-func firstRuneOf(r, str ssa.Value) bool {
-	if ex, ok := r.(*ssa.Extract); ok && ex.Index == 0 {
-		if call, ok := ex.Tuple.(*ssa.Call); ok && call.Call.StaticCallee() != nil && call.Call.StaticCallee().String() == "unicode/utf8.DecodeRuneInString" {
-			return call.Call.Args[0] == str
-		}
-		return false
-	}
-	rp, ok1 := r.(*ssa.Phi)
-	sp, ok2 := str.(*ssa.Phi)
-	if ok1 && ok2 && rp.Block() == sp.Block() {
-		for i := range rp.Edges {
-			if rp.Edges[i] == rp || !firstRuneOfNoPhi(rp.Edges[i], sp.Edges[i]) {
-				return false
-			}
-		}
-		return true
-	}
-	return false
-}
-
-func firstRuneOfNoPhi(r, str ssa.Value) bool {
-	if ex, ok := r.(*ssa.Extract); ok && ex.Index == 0 {
-		if call, ok := ex.Tuple.(*ssa.Call); ok && call.Call.StaticCallee() != nil && call.Call.StaticCallee().String() == "unicode/utf8.DecodeRuneInString" {
-			return call.Call.Args[0] == str
-		}
-	}
-	return false
-}
 
 // keptRunes: for a pattern that is one character class, the rune ranges it does NOT match.
 func keptRunes(re *syntax.Regexp) ([][2]rune, bool) {
